@@ -864,7 +864,7 @@ int main(int argc, char **argv) {
              "set accepted by RoughLegalizationParameters::check + a random walk of refine/coarsen/setBinCells/rebisect/reoptimize/"
              "improveRectangle/improveX/YTransport/run/refine/improve; non-trivial = more than one bin, at least one positive-demand "
              "cell and at least one redistribution step that changed the allocation; distinct by case input";
-  long long n = a.thorough() ? 200000 : (a.search() ? 5000 : 6000);
+  long long n = a.thorough() ? 100000 : (a.search() ? 5000 : 6000);
   std::vector<long long> todo;
   if (!a.replay.empty()) {
     // replay file: JSON written by check.py; the case id "k<idx>" identifies the generator index
